@@ -510,6 +510,43 @@ def check_self_registration(run, db, cls, ops):
             run.ok('R-MOVE.8', inst, fn.loc, 'registers its own address again through %s' % ', '.join(sorted(reg)))
 
 
+INTEGER_TYPES = ('unsigned long', 'std::size_t', 'size_t', 'unsigned int', 'unsigned char', 'unsigned short', 'long', 'int')
+
+
+def check_swap_exchanges(run, db, cls, ops):
+    """swap leaves each side with the other side's counters: for every integer field F and every path through swap(a, b), the final
+    value of a.F is the initial value of b.F and vice versa (swap / adl_swap of two lvalues exchanges their values)"""
+    fn = ops.get('swap')
+    crec = db.classes.get(cls)
+    if fn is None or not crec:
+        return
+    ints = [f['name'] for f in crec['fields'] if f.get('t') in INTEGER_TYPES and not f.get('pointer')]
+    if not ints:
+        return
+    roles = {0: 'a', 1: 'b'}
+    try:
+        S = [s for s in fwd.summarize(fn, db=db, roles=roles, inline_pred=lambda a, c, t: False) if s.end == 'return']
+    except sym.PathLimit as e:
+        run.broke(str(e))
+        return
+    probs = set()
+    for s in S:
+        for F in ints:
+            for me, other in (('$a', '$b'), ('$b', '$a')):
+                v = s.fields.get('%s.%s' % (me, F))
+                if v is None:
+                    continue        # coverage is R-MOVE.1
+                got = sym.canon(v, roles)
+                if got != '%s.%s' % (other, F):
+                    probs.add('%s.%s ends up as %s, not as the other side\'s %s' % (me[1:], F, got[:50], F))
+    inst = '%s [%s]' % (fn.display, db.config)
+    if probs:
+        run.violation('R-MOVE.9', inst, fn.loc, '; '.join(sorted(probs)[:2]) + ': the counter no longer matches the memory that was exchanged',
+                      site={'function': '%s::swap' % cls_template(cls), 'role': 'counters exchanged'})
+    else:
+        run.ok('R-MOVE.9', inst, fn.loc, 'integer fields %s exchanged on all %d path(s)' % (', '.join(ints), len(S)))
+
+
 def check_counter_membership(run, db, cls, ops):
     """if a move/swap skips relinking under `x.empty()`, then counter == 0 must imply "nothing linked":
     every member that lowers the counter unlinks something on the same path"""
@@ -652,6 +689,7 @@ def run(run):
     run.rule('R-MOVE.3', 'destructor safe on the moved-from value', floor=1)
     run.rule('R-MOVE.4', 'release before overwrite in move assignment', floor=2)
     run.rule('R-MOVE.5', 'self-address fields re-derived', floor=2)
+    run.rule('R-MOVE.9', 'swap exchanges the integer counters of both sides on every path', floor=2)
     run.rule('R-MOVE.8', 'own address registered again after a move (deeply tracked allocators)', floor=1)
     run.rule('R-MOVE.6', 'counter-membership invariant behind empty() guards', floor=3)
     run.explanation = ('Per class with user-provided move operations: what is transferred, what the source is left with, what the '
@@ -672,6 +710,7 @@ def run(run):
             check_release_before_overwrite(run, db, cls, ops)
             check_self_address(run, db, cls, ops)
             check_self_registration(run, db, cls, ops)
+            check_swap_exchanges(run, db, cls, ops)
             check_counter_membership(run, db, cls, ops)
             check_assign_order(run, db, cls, ops)
     run.count('classes_with_move_operations', n_cls)
